@@ -138,3 +138,68 @@ func vFrameKind(r *protocol.Reply) string {
 func vRacerName(k int) string {
 	return [...]string{"publish", "node-subscribe", "node-disconnect", "node-unsubscribe", "node-refresh"}[k]
 }
+
+// vDictTransport is a recording transport that also implements
+// DictionaryAwareTransport, to observe when the connection's encoder is closed
+// relative to the frames written and to the transport close.
+type vDictTransport struct {
+	*vTransport
+	dictCloses   int
+	framesAtDict int  // frames written when the encoder was closed
+	closedAtDict bool // transport already closed when the encoder was closed
+}
+
+func (t *vDictTransport) SetDictionaryCompression(cc DictionaryConnection) {}
+func (t *vDictTransport) CloseDictionaryCompression() {
+	t.dictCloses++
+	if t.dictCloses == 1 {
+		t.framesAtDict = len(t.frames)
+		t.closedAtDict = t.closed
+	}
+}
+
+// C11 (encoder clause, close ordering): when a connection closes, its encoder
+// is closed exactly once, after the last frame was handed to the transport
+// (queued frames are flushed first when the close flushes) and before the
+// transport itself is closed.
+func vh_C11_encoder_closed_after_last_use() {
+	n := vNewNode(Config{})
+	delayed := vChoice("write_delay", 2) == 1
+	n.OnConnecting(func(ctx context.Context, e ConnectEvent) (ConnectReply, error) {
+		r := ConnectReply{Subscriptions: map[string]SubscribeOptions{"s": {}}}
+		if delayed {
+			r.WriteDelay = 30_000_000_000
+			r.ReplyWithoutQueue = true
+		}
+		return r, nil
+	})
+	n.OnConnect(func(c *Client) {})
+	tr := &vDictTransport{vTransport: vNewTransport()}
+	ctx := SetCredentials(context.Background(), &Credentials{UserID: "u"})
+	c, _, err := NewClient(ctx, n, tr)
+	vAssert(err == nil, "new client")
+	vAssert(vConnect(c), "connect")
+	vSettle()
+	npub := 1 + vChoice("npub", 3)
+	for k := 0; k < npub; k++ {
+		_, err := n.Publish("s", []byte("{}"))
+		vAssert(err == nil, "publish")
+	}
+	if !delayed {
+		vSettle()
+	}
+	queuedBefore := len(tr.frames)
+	switch vChoice("close", 3) {
+	case 0:
+		_ = c.close(DisconnectForceNoReconnect) // flushes what is queued
+	case 1:
+		_ = c.close(DisconnectConnectionClosed) // no flush
+	default:
+		_ = c.close(DisconnectExpired)
+	}
+	vSettle()
+	vAssert(tr.dictCloses == 1, "encoder closed exactly once")
+	vAssert(!tr.closedAtDict, "encoder closed before the transport")
+	vAssert(tr.framesAtDict == len(tr.frames), "no frame written after the encoder was closed")
+	vCover(delayed && len(tr.frames) > queuedBefore, "queued-frames-flushed-by-close")
+}
